@@ -73,7 +73,25 @@ class ModuleLoader:
             return std
         path = self.source_path(name)
         if path is None:
-            raise OutOfReach(f"import of unmodelled module {name}")
+            # a module from outside the repository without a contract here: importing it is taken to have no effect on the
+            # repository's state (assumption); whatever is used from it is out of reach at the point of use
+            mod_name = name
+
+            class _Opaque(dict):
+                def __missing__(self, k):
+                    def use(interp, a, kw, k=k):
+                        # called with immutable arguments only (names, numbers): an opaque result, out of reach when used;
+                        # anything mutable handed over could be changed by the callee
+                        if all(v is None or isinstance(v, (str, int, float, bool, bytes, VStr)) for v in list(a) + list(kw.values())):
+                            return VOpaque(f"result of {mod_name}.{k}")
+                        raise OutOfReach(f"call of {mod_name}.{k}: module {mod_name} is not modelled")
+                    return VBuiltin(f"{mod_name}.{k}", use)
+
+                def __contains__(self, k):
+                    return True
+            std = VModule(name, _Opaque())
+            self.modules[name] = std
+            return std
         tree, _ = self.parse(path)
         mod = ModuleModel(name, path)
         self.modules[name] = mod
@@ -471,6 +489,13 @@ class ModuleLoader:
         def array(interp, a, k):
             return npmodel.nd_from_value(interp, a[0], k.get("dtype", a[1] if len(a) > 1 else None))
 
+        def asarray(interp, a, k):
+            # no copy when the argument already is an array of the dtype asked for (the same object is returned)
+            x, dt = a[0], k.get("dtype", a[1] if len(a) > 1 else None)
+            if isinstance(x, npmodel.VNd) and (dt is None or (x.fields is None and parse_dtype(dt).fields is None and parse_dtype(dt).kind == x.dt.kind and not parse_dtype(dt).subshape)):
+                return x
+            return npmodel.nd_from_value(interp, x, dt)
+
         def empty(interp, a, k, zero=False):
             shape = a[0]
             dt = parse_dtype(k.get("dtype", a[1] if len(a) > 1 else "<f8"))
@@ -557,7 +582,7 @@ class ModuleLoader:
                                   "clump_unmasked": VBuiltin("clump_unmasked", clump_unmasked)})
         rec = VModule("numpy.rec", {"fromarrays": VBuiltin("fromarrays", fromarrays)})
         from . import eqmodel
-        ns = {"dtype": VBuiltin("np.dtype", dtype), "frombuffer": VBuiltin("np.frombuffer", frombuffer), "array": VBuiltin("np.array", array),
+        ns = {"dtype": VBuiltin("np.dtype", dtype), "frombuffer": VBuiltin("np.frombuffer", frombuffer), "array": VBuiltin("np.array", array), "asarray": VBuiltin("np.asarray", asarray),
               "empty": VBuiltin("np.empty", empty), "zeros": VBuiltin("np.zeros", zeros), "full": VBuiltin("np.full", full), "nan": VFloat(NANW, "py"), "NaN": VFloat(NANW, "py"),
               "ndarray": T_NDARRAY, "ma": ma, "rec": rec, "uint16": "<u2", "float32": "<f4", "int32": "<i4", "int16": "<i2", "uint32": "<u4",
               "float64": "<f8"}
